@@ -3,7 +3,8 @@ import PynguinModel.Model.Cache
 /-! Line-protocol driver for C12: one JSON history per line in, one JSON result per line out.
 Runs `Ver.repo` (the code with the two proposed C12 repairs) on `stdSems`; after every operation it
 prints the operation's output and a snapshot of the chromosomes the operation touched, at the end the
-whole world.  Fitness values are printed exactly, in units of `2^-60`. -/
+whole world.  Fitness values are printed exactly, in units of `2^-60`.  A suite is printed position by position
+(`Suite.members`: an object that sits at two positions is printed twice). -/
 open Lean PynguinModel.Cache
 
 deriving instance FromJson for SubEff
@@ -34,7 +35,7 @@ def tcJ (t : Tc) : Json :=
   Json.arr ([toJson t.content, toJson t.changed, toJson t.result] ++ cacheJ t.cache).toArray
 
 def suJ (s : Suite) : Json :=
-  Json.arr ([Json.arr (s.tests.map tcJ).toArray, toJson s.changed] ++ cacheJ s.cache).toArray
+  Json.arr ([Json.arr (s.members.map tcJ).toArray, toJson s.changed] ++ cacheJ s.cache).toArray
 
 def snapTc (w : World) (i : Nat) : Json :=
   Json.arr #["tc", toJson i, match w.tcs[i]? with | some t => tcJ t | none => Json.null]
@@ -58,6 +59,8 @@ def touched (w : World) : Op → List Json
   | .addTest s _ => [snapSu w s]
   | .delTest s _ => [snapSu w s]
   | .setTest s .. => [snapSu w s]
+  | .addAlias s _ => [snapSu w s]
+  | .setAlias s .. => [snapSu w s]
   | .mutateSuite s _ => [snapSu w s]
   | .xoverSuite s t .. => [snapSu w s, snapSu w t]
   | .crossTc i .. => [snapTc w i]
